@@ -257,7 +257,7 @@ def run(chk, only=None):
                                              for r in nontriv]),
         "rule": "72 enumerated single-branch scenarios (every single fault position START/STMT/END/PREPARE/COMMIT/ROLLBACK, both refusal "
                 "kinds, commit/rollback, holder/stranger, server 5.7.30 and 8.0.30) + 54 enumerated pool-retirement / ErrBadConn / db.ExecContext-retry "
-                "histories + 150 enumerated reuse/timeout histories + 4 long-xid (IPv6) multi-branch histories + 56 two-phase-timeout-checker histories (failed first "
+                "histories + 150 enumerated reuse/timeout histories + 4 long-xid (IPv6) multi-branch histories + 56 two-phase-timeout-checker histories + 33 non-holder-phase-two / rollback-only-END histories (failed first "
                 "branch of every kind x second branch on the same pooled connection x phase-two order; timeouts) + %d seeded programs "
                 "(1-4 branches on fresh or pool-reused connections or through db.ExecContext with its retry, pool retirements, slow statements, fault error "
                 "kinds generic/ErrBadConn/context, interleaved phase two incl. rollback for failed-START "
